@@ -65,8 +65,6 @@ package tmstate
 //@   modifies nothing
 //@ iface tmconsensus.Signer.SignProposedHeader(sg, ctx, ph)
 //@   modifies ph.Signature
-//@ iface tmconsensus.HashScheme.Block(hs, h)
-//@   modifies nothing
 
 // ---- C02: a vote or proposal is released on the actions channel only after the action store recorded exactly it ----
 
